@@ -5,6 +5,7 @@ uninterpreted functions of the field index i in [0, NF).  "for every message typ
 satisfying WF".  The instance state is (raw, gc, sow, unk) + a heap of list / dict contents.
 """
 import ast
+import itertools
 import z3
 
 from .sym import SV, NONE, IntS, BoolS, BytesS, StrS, PyObj, sv_int, sv_bool, sv_bytes, sv_str, sv_tuple, to_obj, concrete_int
@@ -33,6 +34,9 @@ POS_IN_GROUP = z3.Function("POS_IN_GROUP", IntS, IntS)
 MSG_HASFIELDS = z3.Function("MSG_HASFIELDS", PyObj, BoolS)
 IDX_OF_NUMBER = z3.Function("IDX_OF_NUMBER", IntS, IntS)   # field index for a wire number, -1 if unknown
 NF = z3.Int("NF")
+SORTED_AT = z3.Function("SORTED_AT", IntS, IntS)       # k-th field index in name order
+SORTED_POS = z3.Function("SORTED_POS", IntS, IntS)     # its inverse
+DEEPCOPY = z3.Function("DEEPCOPY", PyObj, PyObj)
 MSG_SOW = z3.Function("MSG_SOW", PyObj, BoolS)    # value._serialized_on_wire of a nested message value
 
 EMPTY = z3.Empty(BytesS)
@@ -55,12 +59,15 @@ def cn_of(hl, hdk, v):
                  z3.If(PyObj.is_PDict(v), z3.Length(hdk[PyObj.pdict(v)]), z3.IntVal(0)))
 
 
+_newctr = itertools.count()
+
+
 class MsgPlugin:
     SPEC_NAMES = {"NF", "F_number", "F_ptype", "F_group", "F_wraps", "F_optional", "F_dkind", "F_mapk", "F_mapv",
                   "VAL", "RAWV", "SEL", "INGROUP", "READABLE", "WIREUPTO", "WIRE", "EMIT_AT", "WF", "TY", "GCV",
                   "HEAP_LIST", "HEAP_DK", "HEAP_DV", "CN", "XS", "KS", "VS", "SOWV", "FNAME_IDX", "RAWARR", "GCARR",
                   "TY_AT", "WF_AT", "F_ckind", "IDXN", "SELECT", "DEFOBJ", "UNKF", "SOWF", "GROUP_RESET", "DICTSET_K",
-                  "DICTSET_V", "ENTRY_KEY", "ENTRY_VAL", "F_name", "VALOF", "SHAPE", "STRUCT", "MEMBER", "NMEMBERS", "GROUPS_WF", "INITIALISED", "GCLOCAL", "NAMES_WF", "ALLSENT", "LASTSET", "ISSETV", "POS_OF", "DEFAULTS"}
+                  "DICTSET_V", "ENTRY_KEY", "ENTRY_VAL", "F_name", "VALOF", "SHAPE", "STRUCT", "MEMBER", "NMEMBERS", "GROUPS_WF", "INITIALISED", "GCLOCAL", "NAMES_WF", "ALLSENT", "LASTSET", "ISSETV", "POS_OF", "DEFAULTS", "KWARR", "SORTED_IDX", "SORTED_RANK", "IS_SCALAR_VALUE"}
 
     SPEC_CONSTS = {"NF"}
 
@@ -252,6 +259,9 @@ class MsgPlugin:
 
     def spec_call(self, ex, name, pos, st):
         key = "self"
+        slf = st.env.get("self")
+        if slf is not None and slf.kind == "ref" and slf.extra in ("msg", "rawmsg"):
+            key = slf.t            # inside a modular call `self` may be another message object
         if name.endswith("_OF") and name[:-3] in self.SPEC_NAMES:
             # X_OF(m, ...): the state function X of another message object m (a parameter of model type msg / rawmsg)
             if not pos or pos[0].kind != "ref" or pos[0].extra not in ("msg", "rawmsg"):
@@ -259,6 +269,16 @@ class MsgPlugin:
             key, name, pos = pos[0].t, name[:-3], pos[1:]
         if name == "NF":
             return sv_int(NF)
+        if name == "KWARR":
+            return SV("arr", pos[0].t)
+        if name == "IS_SCALAR_VALUE":
+            t = to_obj(pos[0])
+            return sv_bool(z3.Or(PyObj.is_PNone(t), PyObj.is_PPlaceholder(t), PyObj.is_PBool(t), PyObj.is_PInt(t), PyObj.is_PFloat(t),
+                                 PyObj.is_PStr(t), PyObj.is_PBytes(t), PyObj.is_PEnum(t), PyObj.is_PDatetime(t), PyObj.is_PTimedelta(t)))
+        if name == "SORTED_IDX":
+            return sv_int(SORTED_AT(ex.as_int(pos[0], st)))
+        if name == "SORTED_RANK":
+            return sv_int(SORTED_POS(ex.as_int(pos[0], st)))
         if name == "FNAME_IDX":
             if pos[0].kind == "fname":
                 return sv_int(pos[0].t)
@@ -421,6 +441,8 @@ class MsgPlugin:
                 return out
             if attr in ("_serialized_on_wire", "_unknown_fields"):
                 return None
+            if attr == "__class__":
+                return [(st, SV("func", ("msgcls_ctor", v.t)))]
             return [(st, SV("func", ("method", v, attr)))]
         if v.extra != "msg":
             return None
@@ -527,6 +549,12 @@ class MsgPlugin:
             raw, gc, hl, hdk, hdv = self.cells(st, recv.t)
             st.heap[(recv.t, "gc")] = SV("arr", z3.Store(gc, g.t, v.t))
             return True
+        if recv.kind == "kwlocal" and key.kind == "fname":
+            for k_, v_ in list(st.env.items()):
+                if v_ is recv:
+                    st.env[k_] = SV("kwlocal", z3.Store(recv.t, key.t, to_obj(v)))
+                    return True
+            raise Unsupported("item assignment on an untracked keyword table")
         if recv.kind == "gclocal" and v.kind == "fname":
             g = ex.coerce(key, "str", st, "group name")
             for k_, v_ in list(st.env.items()):
@@ -565,6 +593,22 @@ class MsgPlugin:
         return None
 
     def call_other(self, ex, tag, pos, kw, st, node):
+        if tag[0] == "msgcls_ctor" and not pos and set(kw) == {"**"}:
+            # type(self)(**kwargs): the dataclass __init__ stores every keyword (PLACEHOLDER where absent) and then runs
+            # __post_init__ (its contract, verified in this area) on the new object  (A-DATACLASS-INIT)
+            ex.assumption("A-DATACLASS-INIT")
+            key = f"new!{next(_newctr)}"
+            st2 = st.clone()
+            st2.heap[(key, "raw")] = SV("arr", kw["**"].t)
+            st2.heap[(key, "gc")] = SV("arr", z3.Const(f"{key}.gc0", GC_S))
+            st2.heap[(key, "_serialized_on_wire")] = sv_bool(z3.Bool(f"{key}.sow0"))
+            st2.heap[(key, "_unknown_fields")] = sv_bytes(z3.Const(f"{key}.unk0", BytesS))
+            st2.heap[(key, "_init")] = sv_bool(False)
+            new = SV("ref", key, "rawmsg")
+            out = []
+            for st3, r in ex.call_repo("betterproto.Message.__post_init__", [], {}, st2, node, recv=new):
+                out.append((st3, r if isinstance(r, Raised) else new))
+            return out
         if tag[0] == "fieldcls" and not pos and not kw:
             return [(st, SV("fieldmsg", tag[1]))]
         if tag[0] == "wrapper_cls" and not pos and not kw:
@@ -629,6 +673,13 @@ class MsgPlugin:
             return z3.Length(mem), (lambda k: SV("rec", {"name": SV("fname", mem[k])}, "Field"))
         if itv.kind == "iter_fieldnames":
             return NF, (lambda k: SV("fname", k))
+        if itv.kind == "bpattr" and itv.t[1] == "sorted_field_names":
+            # the field names in sorted order: a permutation of the field indices (A-SORTED-PERM)
+            ex.assumption("A-SORTED-PERM")
+            q, i = z3.Int("q!sp"), z3.Int("i!sp")
+            st.assume(z3.ForAll([q], z3.Implies(z3.And(0 <= q, q < NF), z3.And(0 <= SORTED_AT(q), SORTED_AT(q) < NF, SORTED_POS(SORTED_AT(q)) == q))))
+            st.assume(z3.ForAll([i], z3.Implies(z3.And(0 <= i, i < NF), z3.And(0 <= SORTED_POS(i), SORTED_POS(i) < NF, SORTED_AT(SORTED_POS(i)) == i))))
+            return NF, (lambda k: SV("fname", SORTED_AT(k)))
         raw, gc, hl, hdk, hdv = self.cells(st)
         if itv.kind == "obj":
             # iteration over a dynamically typed value: a list by the path condition
@@ -780,6 +831,18 @@ class MsgPlugin:
             return out
         if name == "super" and not pos and "self" in st.env:
             return [(st, SV("super", st.env["self"].t))]
+        if name in ("copy.deepcopy", "deepcopy") and len(pos) == 1 and pos[0].kind == "obj":
+            # A-DEEPCOPY: immutable scalars (and the PLACEHOLDER singleton, whose __deepcopy__ returns itself) are their
+            # own deep copies; containers and messages become new objects about which nothing is assumed here
+            ex.assumption("A-DEEPCOPY")
+            t = pos[0].t
+            d = DEEPCOPY(t)
+            scalar = z3.Or(PyObj.is_PNone(t), PyObj.is_PPlaceholder(t), PyObj.is_PBool(t), PyObj.is_PInt(t), PyObj.is_PFloat(t),
+                           PyObj.is_PStr(t), PyObj.is_PBytes(t), PyObj.is_PEnum(t), PyObj.is_PDatetime(t), PyObj.is_PTimedelta(t))
+            st2 = st.clone()
+            st2.assume(z3.Implies(scalar, d == t))
+            st2.assume(z3.Implies(z3.Not(scalar), z3.Not(PyObj.is_PPlaceholder(d))))
+            return [(st2, SV("obj", d))]
         if name == "dict" and len(pos) == 1 and not kw and pos[0].kind in ("gcdict", "gclocal"):
             # dict(d): a new dictionary with the same entries (the selection table of a message)
             if pos[0].kind == "gclocal":
@@ -859,6 +922,9 @@ class MsgPlugin:
         return None
 
     def dict_literal(self, ex, st):
+        if ex.qualname.endswith(("Message.__copy__", "Message.__deepcopy__")):
+            # kwargs = {}: a keyword table indexed by field; an absent keyword is the dataclass default PLACEHOLDER
+            return [(st, SV("kwlocal", z3.K(IntS, PyObj.PPlaceholder)))]
         if not ex.qualname.endswith("__post_init__"):
             return None
         return [(st, SV("gclocal", z3.K(StrS, z3.IntVal(-2))))]
@@ -868,6 +934,9 @@ class MsgPlugin:
 
 
 MSG_ASSUMPTIONS = {
+    "A-DEEPCOPY": "copy.deepcopy of an immutable scalar value (None, bool, int, float, str, bytes, Enum member, datetime, timedelta) and of the PLACEHOLDER singleton is the value itself; of a list / dict / message it is some other non-PLACEHOLDER object (its contents are the subject of the bounded stand-in)",
+    "A-SORTED-PERM": "ProtoClassMetadata.sorted_field_names enumerates every field name exactly once (a permutation of the field table)",
+    "A-DATACLASS-INIT": "the dataclass-generated __init__ stores each keyword argument in the slot of its field, PLACEHOLDER (the declared default) for absent keywords, and then calls __post_init__",
     "C-GETATTR": "getattr(self, field) behaves as the contract of Message.__getattribute__ (DESIGN A.4): AttributeError iff the field is an unselected oneof member, else the stored value with the default materialised in place",
     "A-DEFAULT-CANON": "the read-only proofs identify the freshly created default of a field with one canonical default object per field (DEFOBJ(i)); sound for code that does not mutate defaults",
     "A-OBJ": "dataclass instances are plain __dict__ objects; field access goes through __getattribute__/__setattr__ only",
